@@ -41,13 +41,13 @@ def run_engine(exe, prop, tier, seed, outdir, jobs):
     shutil.rmtree(outdir, ignore_errors=True)
     os.makedirs(outdir, exist_ok=True)
     cmd = [exe, "run", prop, "--tier", tier, "--seed", str(seed), "--jobs", str(jobs), "--out", outdir, "--known", KNOWN]
-    r = subprocess.run(cmd, env=engine_env(), stdout=subprocess.PIPE, stderr=subprocess.PIPE, text=True)
+    r = subprocess.run(cmd, env=engine_env(), stdout=subprocess.PIPE, stderr=subprocess.PIPE, text=True, errors="replace")
     return r
 
 
 def replay_once(exe, prop, caseid, timeout=120):
     try:
-        r = subprocess.run([exe, "replay", prop, caseid], env=engine_env(), stdout=subprocess.PIPE, stderr=subprocess.STDOUT, text=True, timeout=timeout)
+        r = subprocess.run([exe, "replay", prop, caseid], env=engine_env(), stdout=subprocess.PIPE, stderr=subprocess.STDOUT, text=True, errors="replace", timeout=timeout)
         return r.returncode, r.stdout
     except subprocess.TimeoutExpired:
         return 124, "timeout"
